@@ -18,7 +18,7 @@ def row(m):
 total = len(metas); caught = sum(1 for m in metas if m.get("caught_by"))
 out = []
 out.append("## Appendix E — seeded defects (sensitivity)\n")
-out.append(f"""Six rounds of 18 seeded defects each (rounds 1–4 and 6: two per claimed property; round 5: two per group of source files, the author choosing which property to break),
+out.append(f"""Seven rounds of 18 seeded defects each (rounds 1–4, 6 and 7: two per claimed property; round 5: two per group of source files, the author choosing which property to break),
 every one written by a fresh sub-agent that was given only the text of one
 property and its own scratch git worktree of `/repo` under `/tmp` — nothing
 from `/verif`. Rounds 2 to 4 additionally received one-line summaries of the
@@ -32,7 +32,11 @@ differ from them in *kind* (a rarely used entry point or generic instantiation,
 an interaction between two API families, the second use of an object or its use
 after a failed call, unusual length or value classes, handling that is right
 for one error kind and wrong for another, clean-up skipped when two things fail
-in one call).
+in one call); round 7 for defects that manifest under a caller behaviour or an
+environment condition rather than an input value (object or buffer re-use,
+threads, fork, drop order, other system calls failing or succeeding partially,
+process-wide settings, container-specific trait impls, state surviving a failed
+call).
 For each defect I re-ran in the scratch worktree: the demonstration on clean
 HEAD (passes), the existing suite with the patch (`cargo test --offline --lib
 --tests`, plus `cargo +nightly test --features nightly --lib` for
@@ -40,10 +44,10 @@ protected-memory code: green), the demonstration with the patch (fails) —
 `tools/confirm_mutant.sh`; then applied the patch to `/repo`, ran the
 registered quick check(s), and reverted — `tools/run_seeded.py` (results in each
 `meta.json`). With the machinery as committed, **{caught} of {total}** are caught by the
-quick tier. The last column says what the machinery needed in order to catch
+quick tier; the ones that are not are discussed under "Round 7" below. The last column says what the machinery needed in order to catch
 the defect when it did not as it stood at the time the defect was written.
 """)
-for r in (1, 2, 3, 4, 5, 6):
+for r in (1, 2, 3, 4, 5, 6, 7):
     ms = [m for m in metas if rnd(m) == r]
     if not ms: continue
     out.append(f"\n### Round {r}\n")
